@@ -177,9 +177,12 @@ type Sess struct {
 	// next engine is built with a persister of its own (fault injection); LoadFailed counts them.
 	FailLoadThisRequest bool
 	LoadFailed          int
-	keptPe         *persist.Persister
-	keptPeStore    db.Db
-	PosLog         []Pos // position after every request
+	// Worker selects which of the gateway's workers serves the next request: with the kept-persister
+	// policy every worker has a persister of its own for the session
+	Worker    int
+	keptPe    map[int]*persist.Persister
+	keptStore map[int]db.Db
+	PosLog    []Pos // position after every request
 }
 
 type Pos struct {
@@ -470,7 +473,10 @@ func (s *Sess) Retire() {
 func (s *Sess) build() error {
 	s.Retire()
 	if s.Persist {
-		if s.W.NewStore != nil {
+		if s.W.Cfg.KeepPersister && s.keptPe[s.Worker] != nil && s.keptStore[s.Worker] != nil {
+			// a worker that keeps its persister keeps the store handle under it
+			s.Store = s.keptStore[s.Worker]
+		} else if s.W.NewStore != nil {
 			st, err := s.W.NewStore(s)
 			if err != nil {
 				return err
@@ -485,11 +491,15 @@ func (s *Sess) build() error {
 			s.Store.SetSession(s.ID)
 		}
 		if s.W.Cfg.KeepPersister {
-			if s.keptPe == nil || s.keptPeStore != s.Store {
-				s.keptPe = persist.NewPersister(s.Store)
-				s.keptPeStore = s.Store
+			if s.keptPe == nil {
+				s.keptPe = map[int]*persist.Persister{}
+				s.keptStore = map[int]db.Db{}
 			}
-			s.Pe = s.keptPe
+			if s.keptPe[s.Worker] == nil || s.keptStore[s.Worker] != s.Store {
+				s.keptPe[s.Worker] = persist.NewPersister(s.Store)
+				s.keptStore[s.Worker] = s.Store
+			}
+			s.Pe = s.keptPe[s.Worker]
 			if s.W.Cfg.SetSession && viaPe {
 				s.Pe.WithSession(s.ID)
 			}
